@@ -97,9 +97,9 @@ CHECKS["C09"] = dict(
     design="DESIGN.md S.2 and 3 C09")
 
 CHECKS["C11"] = dict(
-    technique="Coq proof: model of IntegralGenerator's variable scopes (per-rule scope + shared piecewise scope) with the cache test regenerated from the source; theorem: every rule reads its own varying values for all rule lists; correspondence of the model with the real generator's scope resolution; oracle with each integral's own rule; closed-form monomial integrals in exact rational arithmetic for every cell and degree 0..30",
-    text="Proved for all lists of rules and all status assignments: a node that varies under rule i is resolved to rule i's own definition (refuted by example for the pre-fix cache test). Correspondence: the real generator's resolution of every node equals the model's on all multi-rule kernels of the corpus. Sampled: sums of integrals with differing rules (degrees, vertex/GLL/custom schemes, quadrature elements, facets, subdomains) agree with the oracle integrating each with its own rule; forms without metadata are exact on affine cells; monomial functionals of degree q with dx(degree=q) equal the closed-form integral (7 cells, q=0..30, schemes default/GLL/Gauss-Jacobi/xiao_gimbutas). Exactness of basix' rules is not proved in Coq.",
-    note="Coq kernel+VM; tr_scope.py; oracle and exact rational closed forms trusted; forms sampled; known finding: two different one-point rules in one integral share piecewise values",
+    technique="Coq proof: (1) model of IntegralGenerator's variable scopes with the cache test regenerated from the source, theorem that every rule reads its own varying values for all rule lists, correspondence of the model with the real generator's scope resolution; (2) finite exactness theorem: the rules FFCx builds for every (cell, degree up to a stated bound, default scheme) are tabulated through create_quadrature_points_and_weights on every run and every monomial of total degree <= q is shown, in exact integer arithmetic evaluated by vm_compute over BigZ, to be integrated to within 2^-40; oracle with each integral's own rule; closed-form monomial integrals for degree 0..30",
+    text="Proved for all lists of rules and all status assignments: a node that varies under rule i is resolved to rule i's own definition (refuted by example for the pre-fix cache test). Proved (finite, regenerated, bounds in the theorem: 1D/2D cells q<=20, 3D cells q<=6 in the quick tier; 30/14 in the thorough tier): exactness of the tabulated default rules incl. the tensor-product variant, and that the table covers every degree up to the bound. Correspondence: the real generator's scope resolution equals the model's. Sampled: sums of integrals with differing rules / partial metadata / vertex, GLL, custom schemes / quadrature elements vs the oracle; forms without metadata exact on affine cells; monomial functionals with dx(degree=q) vs closed forms (7 cells, q=0..30, 4 schemes).",
+    note="Coq kernel+VM; Bignums BigZ (the stdlib axioms on primitive 63-bit integers, Uint63.*_spec, appear under the exactness theorem and nowhere else); closed-form reference integrals (Dirichlet) are part of the statement; tr_scope.py, tr_quad.py; oracle and exact rational closed forms trusted; known finding: two different one-point rules in one integral share piecewise values",
     design="DESIGN.md S.2 and 3 C11")
 
 CHECKS["C10"] = dict(
@@ -109,8 +109,8 @@ CHECKS["C10"] = dict(
     design="DESIGN.md S.2 and 3 C10")
 
 CHECKS["C12"] = dict(
-    technique="Coq proof: site table of every hash-ordered set / process-global id in ffcx/ regenerated by a syntactic scanner, finite theorem that no site leaks enumeration order, general theorem that a sorted site is enumeration-independent (Order.v); subprocess generation under different PYTHONHASHSEED values and histories compared byte for byte",
-    text="Proved: for any two enumerations of the same elements a sorted site returns the same list (keys separating the elements); size/membership observations are order-free; every site the scanner finds in ffcx/ is Sorted, OrderFree or a list de-duplication (finite, re-derived from the source on every run; three sites cleared by a justified allow-list). Sampled: every corpus case generated in separate processes for several hash seeds and under four histories (unrelated UFL objects first, reverse order, another form in between, same form twice), C and numba, digests equal.",
+    technique="Coq proof: site table of every hash-ordered set / process-global id / module-level container mutated by a function in ffcx/ regenerated by a syntactic scanner, finite theorem that no site leaks enumeration order, general theorem that a sorted site is enumeration-independent (Order.v); subprocess generation under different PYTHONHASHSEED values and histories compared byte for byte",
+    text="Proved: for any two enumerations of the same elements a sorted site returns the same list (keys separating the elements); size/membership observations are order-free; every site the scanner finds in ffcx/ is Sorted, OrderFree or a list de-duplication (finite, re-derived from the source on every run; three sites cleared by a justified allow-list). Sampled: every corpus case generated in separate processes for several hash seeds and under four histories (unrelated UFL objects first, reverse order, another form in between, same form twice), C and numba, digests equal to those of the text generated for each case alone in a fresh process.",
     note="Coq kernel+VM; tr_sites.py (syntactic, flow-insensitive; UFL's and basix' own ordering functions are outside it); forms, seeds and histories sampled",
     design="DESIGN.md S.2 and 3 C12")
 
